@@ -998,9 +998,7 @@ impl Vm {
 
                     let callable = self.pop();
                     match callable.unsafe_as_function_reference() {
-                        FunctionReference::Normal(ref name) => {
-                            let function_idx = self.get_function_idx(name) as usize;
-
+                        FunctionReference::Normal(_, function_idx) => {
                             // TODO: unify code with 'Op::Call'?
                             #[cfg(feature = "verif")]
                             self.verif_emit_call(function_idx, num_args);
